@@ -47,7 +47,9 @@ def concretise(sc: Dict[str, Any], tmp: Path, h: int) -> Tuple[List[str], Dict[s
     ctx = {"value": "1.0"}
     planned, fail_at = sc["planned"], sc["failAt"]
     if sc["traced"]:
-        doc["trace"] = {"driver": "jsonl", "output_path": str(tmp / "trace"), "options": {"detail": ["hash", "all"][h % 2]}}
+        # directory mode (one file per run) or single-file mode (a path with an extension under the same directory)
+        out_path = tmp / "trace" if h % 3 else tmp / "trace" / "all.ser.jsonl"
+        doc["trace"] = {"driver": "jsonl", "output_path": str(out_path), "options": {"detail": ["hash", "all"][h % 2]}}
     if sc["runSpace"] == "ok":
         factors: List[Any] = [float(i + 2) for i in range(planned)]
         triggers = [0.0] * planned
